@@ -113,6 +113,9 @@ type c18Config struct {
 	BaseSection bool              `json:"base_language_section,omitempty"` // the localization also has a section keyed by the flow's own base language
 	Voice       bool              `json:"voice,omitempty"`                 // voice flow with a say_msg (text + audio_url)
 	VStates     [2]map[string]int `json:"-"`                               // translation states of say.text and say.audio_url
+	// two sprints: the flow waits before its second message and the resume brings an environment with another allowed list
+	Phase2   bool     `json:"environment_refreshed_on_resume,omitempty"`
+	Allowed2 []string `json:"allowed_languages_after_resume,omitempty"`
 }
 
 // the two extra items of the voice variant (not part of the grids)
@@ -264,6 +267,9 @@ func c18RandomPoint(r *fw.Rand) *c18Config {
 	}
 	cfg.finish(r)
 	cfg.BaseSection = r.Chance(0.2)
+	if r.Chance(0.15) {
+		cfg.Phase2, cfg.Allowed2 = true, fw.Pick(r, c18Allowed)
+	}
 	if r.Chance(0.2) {
 		cfg.Voice = true
 		for k := range cfg.VStates {
@@ -409,11 +415,19 @@ func buildC18(cfg *c18Config) *c18Built {
 		say = d.Action("say", "say_msg", M{"text": "S-base", "audio_url": "http://a.io/base-say.mp3"})
 		n1acts = []any{m1, say, set, sel}
 	}
-	flow := d.Flow("L", ftype,
+	afterR2 := "n3"
+	if cfg.Phase2 {
+		afterR2 = "w"
+	}
+	nodesL := []M{
 		d.Node("n1", n1acts, nil, d.Exit("n1:x", "r1")),
 		d.Node("r1", nil, r1, d.Exit("r1:a", "r2"), d.Exit("r1:b", "r2"), d.Exit("r1:o", "r2")),
-		d.Node("r2", nil, r2, d.Exit("r2:a", "n3"), d.Exit("r2:o", "n3")),
-		d.Node("n3", []any{m2}, nil, d.Exit("n3:x", "")))
+		d.Node("r2", nil, r2, d.Exit("r2:a", afterR2), d.Exit("r2:o", afterR2)),
+		d.Node("n3", []any{m2}, nil, d.Exit("n3:x", ""))}
+	if cfg.Phase2 {
+		nodesL = append(nodesL, d.WaitNode("w", "n3", nil))
+	}
+	flow := d.Flow("L", ftype, nodesL...)
 	flow["language"] = cfg.Base
 
 	str := func(m M, k string) string { return m[k].(string) }
@@ -478,6 +492,16 @@ func buildC18(cfg *c18Config) *c18Built {
 	}
 	trig["environment"] = env
 	b.scen = &gen.Scenario{Assets: d.BaseAssets(flow), Trigger: trig}
+	if cfg.Phase2 {
+		rs := d.MsgResume(0, "go on")
+		env2 := M{}
+		for k, v := range env {
+			env2[k] = v
+		}
+		env2["allowed_languages"] = cfg.Allowed2
+		rs["environment"] = env2
+		b.scen.Resumes = []M{rs}
+	}
 	return b
 }
 
@@ -503,7 +527,8 @@ var c18Directed = []string{"blank-translations", "argument-list-lengths", "conta
 	"all-empty-pair-translations", "all-empty-triple-translations", "all-empty-before-base", "first-element-empty-translations", "last-element-empty-translations", "whitespace-translations",
 	"empty-and-whitespace-translations", "text-less-all-empty-lists", "mixed-empty-shapes",
 	"base-section-contact-is-base", "base-section-nothing-else-translated", "base-section-base-is-default",
-	"voice-text-and-recording-in-different-languages", "voice-recording-only-translated", "voice-text-only-translated", "voice-whitespace-text"}
+	"voice-text-and-recording-in-different-languages", "voice-recording-only-translated", "voice-text-only-translated", "voice-whitespace-text",
+	"environment-refresh-drops-contact-language", "environment-refresh-allows-contact-language", "environment-refresh-changes-default"}
 
 func (p *c18) Directed() []string { return c18Directed }
 
@@ -631,6 +656,10 @@ func (p *c18) Run(c fw.Case) fw.Result {
 	h.run(func(rec *drive.CallRecord, pre plantState) {
 		if rec.Kind == "unreadable" {
 			res.Inconclusive = "unreadable trigger: " + rec.Err.Error()
+			return
+		}
+		if cfg.Phase2 && rec.Index > 0 {
+			p.checkPhase2(&res, h, cfg, b, rec)
 			return
 		}
 		p.check(&res, h, cfg, b, rec)
@@ -1066,4 +1095,57 @@ func refSendableQuickReplies(qrs []string) []string {
 		}
 	}
 	return out
+}
+
+// checkPhase2: the sprint after a resume that brought an environment with another list of allowed languages. The chain is
+// the one the NEW environment gives; the only item evaluated in this sprint is the second message.
+func (p *c18) checkPhase2(res *fw.Result, h *harness, cfg *c18Config, b *c18Built, rec *drive.CallRecord) {
+	if rec.Panic != nil {
+		panicViolation(res, "C18", h.scen, rec)
+		return
+	}
+	if !rec.OK() || rec.Session == nil || len(rec.Session.Runs()) == 0 {
+		res.Count("call.not_ok", 1)
+		return
+	}
+	flow := h.flows[string(rec.Session.Runs()[0].FlowReference().UUID)]
+	if flow == nil {
+		return
+	}
+	chain := refChain(h.trigger.Contact.Language, cfg.Allowed2, flow.Language)
+	var msgs []sprintEvent
+	for _, e := range sprintEvents(rec) {
+		if e.Type == "msg_created" && e.Msg != nil {
+			msgs = append(msgs, e)
+		}
+	}
+	res.Count("clause.phase2", 1)
+	if len(msgs) != 1 {
+		res.Count("skip.unexpected_message_count", 1)
+		return
+	}
+	if strings.Join(refChain(h.trigger.Contact.Language, cfg.Allowed, flow.Language), ",") != strings.Join(chain, ",") {
+		res.Count("phase2.chain_changed_by_the_resume", 1)
+	}
+	m := msgs[0].Msg
+	txt, tl := flow.resolve(chain, b.uuids[itM2Text], "text", b.bases[itM2Text])
+	att, al := flow.resolve(chain, b.uuids[itM2Att], "attachments", b.bases[itM2Att])
+	viol := func(class, expL, obsL, what string, extra map[string]any) {
+		extra["config"], extra["chain_after_resume"], extra["states"] = cfg, chain, cfg.stateTable()
+		res.Violate("C18|decision-mismatch|"+class+"|after-environment-refresh|expected="+expL+"|observed="+obsL, what, witnessOf(h.scen, extra))
+	}
+	if m.Text != txt[0] {
+		viol("msg.text", cfg.label(tl), cfg.label(langOf(cfg, m.Text)), fmt.Sprintf("after a resume that changed the allowed languages to %v the message text is %q; the chain %v gives %q (%s)", cfg.Allowed2, m.Text, chain, txt[0], tl),
+			map[string]any{"observed": m.Text, "expected": txt[0], "expected_language": tl})
+	}
+	if want := refSendableAttachments(att); !eqStrings(m.Attachments, want) {
+		viol("msg.attachments", cfg.label(al), cfg.label(langOf(cfg, strings.Join(m.Attachments, " "))), fmt.Sprintf("after a resume that changed the allowed languages to %v the attachments are %v; the chain %v gives %v (%s)", cfg.Allowed2, m.Attachments, chain, want, al),
+			map[string]any{"observed": m.Attachments, "expected": want, "expected_language": al})
+	}
+	if strings.TrimSpace(txt[0]) != "" {
+		if obs := strings.SplitN(m.Locale, "-", 2)[0]; obs != tl {
+			viol("msg.locale.from_text", cfg.label(tl), cfg.label(obs), fmt.Sprintf("after a resume that changed the allowed languages to %v the message locale is %q but its text was taken from %s", cfg.Allowed2, m.Locale, tl),
+				map[string]any{"observed_locale": m.Locale, "text_language": tl})
+		}
+	}
 }
